@@ -190,3 +190,31 @@ Theorem C10_match_arg_error_kinds : forall c tok vaf trailing,
    \/ (e_kind e = EArgumentConflict /\ has_subcommands c = true /\ is_set s_args_negate_subs c = true /\ vaf = true)).
 Proof. exact match_arg_error_kinds. Qed.
 Print Assumptions C10_match_arg_error_kinds.
+
+(** every error raised while a flag token is processed is a justified reaction error, and those
+    never carry an "unknown token" kind *)
+Theorem C10_reaction_error_kinds : forall c e,
+  reaction_error c e ->
+  In (e_kind e) [EInvalidValue; EWrongNumberOfValues; ETooFewValues; ETooManyValues; EArgumentConflict;
+                 EInvalidUtf8; EValueValidation; EDisplayHelp; EDisplayVersion].
+Proof. exact reaction_error_kinds. Qed.
+Print Assumptions C10_reaction_error_kinds.
+
+Theorem C10_long_flag_errors_are_reactions : forall c flag ok value pst pc vaf st e st',
+  parse_long_arg c flag ok value pst pc vaf st = RErr e st' -> reaction_error c e.
+Proof. exact parse_long_arg_err. Qed.
+Print Assumptions C10_long_flag_errors_are_reactions.
+
+Theorem C10_short_flag_errors_are_reactions : forall c r pst pc vaf st e st',
+  parse_short_arg c r pst pc vaf st = RErr e st' -> reaction_error c e.
+Proof. exact parse_short_arg_err. Qed.
+Print Assumptions C10_short_flag_errors_are_reactions.
+
+(** ** the whole token loop of one command level: an UnknownArgument / InvalidSubcommand error names
+    a token of the line that matches no key of the command -- an unknown long flag, an unknown short
+    flag, a word where only a [last] positional (before `--`) or no positional at all is left *)
+Theorem C10_unknown_token_sound : forall c toks ls st e st',
+  parse_loop c toks ls st = RErr e st' -> unknown_kind (e_kind e) ->
+  exists tok, In tok toks /\ unknown_cause c tok e.
+Proof. exact parse_loop_unknown_sound. Qed.
+Print Assumptions C10_unknown_token_sound.
